@@ -15,7 +15,8 @@ OutFile == Env("GEN_OUT", "/dev/null")
 StatePool == {"q0", "p_1", "s.x", "#", "a'", "[p|q]", "Ops", "Final", "States", "Automaton", "q0q", "9"}
 SymFams == << [n0 |-> "a", n1 |-> "g", n2 |-> "f"],
               [n0 |-> "Transitions", n1 |-> "g-h", n2 |-> "0"],
-              [n0 |-> "q0", n1 |-> "States", n2 |-> "x'y"] >>
+              [n0 |-> "q0", n1 |-> "States", n2 |-> "x'y"],
+              [n0 |-> "#", n1 |-> "#nil", n2 |-> "%f"] >>
 StateSets == kSubset(1, StatePool) \cup kSubset(2, StatePool)
 Rules(Q, F) == {<<F.n0, <<>>, q>> : q \in Q} \cup {<<F.n1, <<p>>, q>> : p \in Q, q \in Q}
                \cup {<<F.n2, <<p, r>>, q>> : p \in Q, r \in Q, q \in Q}
